@@ -1,6 +1,8 @@
 import ScenicModel.Model.Roads
 import ScenicModel.Model.RoadLookup
 import ScenicModel.Model.RoadCache
+import ScenicModel.Model.RoadDirection
+import ScenicModel.Model.RoadAdjacency
 import ScenicModel.Gen.Roads
 import Driver.Util
 /-!
@@ -87,7 +89,51 @@ def splitAtTok (t : String) : List String → List String × List String
     (x :: a, b)
 
 def parseErr : Err → String
-  | .unpickling => "unpickling" | .digestMismatch => "mismatch" | .other => "other"
+  | .unpickling => "unpickling" | .digestMismatch => "mismatch" | .fileNotFound => "notfound"
+  | .valueError => "valueerror" | .other => "other"
+
+def showSrc : Src → String
+  | .elem e => s!"e{e}"
+  | .closestOf i => s!"c{i}"
+
+/-- network-level lookups | element-level lookups (owner taken from the network-level result of the same
+model) | source of roadDirection | sources of nominalDirectionsAt -/
+def queryPoint2 (n : Network) (tolPos : Bool) (pf : PointFacts) : String :=
+  let passes := Scenic.Gen.Roads.passes
+  let look (name : String) : Option Nat :=
+    match Scenic.Gen.Roads.lookups.lookup name with
+    | some d => lookupWith passes n tolPos pf d
+    | none => none
+  let road := look "roadAt"
+  let roadSec : Option Nat := match road with
+    | some r => findPointInWith passes tolPos pf (n.field .sections r)
+    | none => none
+  let ownerOf : Kind → Option Nat
+    | .road => road
+    | .laneGroup => look "laneGroupAt"
+    | .lane => look "laneAt"
+    | .roadSection => roadSec
+    | _ => none
+  let elems := Scenic.Gen.Roads.elemLookups.map fun (_, d) =>
+    match ownerOf d.owner with
+    | some o => showOptNat (elemLookupWith passes n tolPos pf d o)
+    | none => "-"
+  let (rd, nd) := match Scenic.Gen.Roads.lookups.lookup "nominalDirElem" with
+    | some d => (match roadDirSource passes n tolPos pf d with | some s => showSrc s | none => "-",
+                 ";".intercalate ((nominalSources passes n tolPos pf d).map showSrc))
+    | none => ("?", "?")
+  queryPoint n tolPos pf ++ "|" ++ ",".intercalate elems ++ "|" ++ rd ++ "|" ++ (if nd == "" then "-" else nd)
+
+def parseInts (s : String) : Option (List Int) :=
+  if s == "" || s == "-" then some [] else (s.splitOn ",").mapM String.toInt?
+
+def showOptInt : Option Int → String
+  | none => "-"
+  | some i => toString i
+
+def parseExt : String → Option Ext
+  | "none" => some .none | "map" => some .map | "pickled" => some .pickled | "unknown" => some .unknown
+  | _ => none
 
 def parseOptBytes (s : String) : Option (Option Bytes) :=
   if s == "none" then some none else if s == "empty" then some (some []) else (fromHex s).map some
@@ -114,6 +160,37 @@ def handle : List String → String
     match parseNet toks, pts.mapM parsePoint with
     | some n, some ps => " ".intercalate (ps.map (queryPoint n (tp == "1")))
     | _, _ => "bad-query"
+  | "query2" :: tp :: rest =>
+    let (toks, pts) := splitAtTok "Q" rest
+    match parseNet toks, pts.mapM parsePoint with
+    | some n, some ps => " ".intercalate (ps.map (queryPoint2 n (tp == "1")))
+    | _, _ => "bad-query"
+  | "elemlookups" :: _ => " ".intercalate (Scenic.Gen.Roads.elemLookups.map (·.1))
+  | ["adj", dr, ids] =>
+    match parseInts ids with
+    | some l =>
+      " ".intercalate (l.map fun id =>
+        let a := Scenic.RoadAdj.adjOf Scenic.Gen.Roads.adjCfg (dr == "1") l id
+        s!"{id}:{showOptInt a.left}/{showOptInt a.right}/{showOptInt a.faster}/{showOptInt a.slower}/" ++
+          (if a.adjacent.isEmpty then "-" else ".".intercalate (a.adjacent.map toString)))
+    | none => "bad-adj"
+  | ["order", ids] =>
+    match parseInts ids with
+    | some l =>
+      let (f, b) := Scenic.RoadAdj.sectionOrder l
+      let sh (x : List Int) := if x.isEmpty then "-" else ",".intercalate (x.map toString)
+      sh f ++ "|" ++ sh b
+    | none => "bad-order"
+  | ["frompath", ext, useCache, mapd, cache, payload, optd] =>
+    match parseExt ext, (if mapd == "none" then some none else (fromHex mapd).map some),
+      (if cache == "none" then some none else if cache == "-" then some (some []) else (fromHex cache).map some), fromHex optd with
+    | some e, some m, some c, some o =>
+      match fromFilePath Scenic.Gen.Roads.cacheCfg Scenic.Gen.Roads.pathCfg .fileNotFound (unpickleFlag payload) ()
+          (useCache == "1") e m c o with
+      | .cached _ => "cached"
+      | .parsed _ => "parsed"
+      | .raised e => "raised:" ++ parseErr e
+    | _, _, _, _ => "bad-frompath"
   | ["find", tp, elems, exact, near] =>
     match parseNats elems, parseNats exact, parseNats near with
     | some es, some ex, some nr =>
